@@ -9,7 +9,7 @@ for S in $SEEDS; do
         VERIF_SEED=$S ./check C$i --tier quick > /tmp/stab.$$.log 2>&1
         RC=$?
         T1=$(date +%s)
-        echo "seed=$S C$i rc=$RC $((T1-T0))s $(grep -c KNOWN-FINDING /tmp/stab.$$.log) known; $(grep -m1 'signature:' /tmp/stab.$$.log)"
+        echo "seed=$S C$i rc=$RC $((T1-T0))s $(grep -c KNOWN-FINDING /tmp/stab.$$.log) known; $(grep -m1 'signature:' /tmp/stab.$$.log) $(grep -m1 'smallest label-floor' /tmp/stab.$$.log | sed 's/ *smallest label-floor margin: /margin /')"
         [ $RC -ne 0 ] && grep -A3 'VIOLATION\|HARNESS' /tmp/stab.$$.log | head -12
     done
 done
